@@ -215,7 +215,7 @@ def scan(tag, mol):
     """-> list of (signature, what, replay-dict)"""
     import propka.energy as E
     out = []
-    for cname in mol.conformation_names:
+    for cname in list(mol.conformation_names) + (["AVR"] if len(mol.conformation_names) > 1 else []):
         conf = mol.conformations[cname]
         par = conf.parameters
         cmax = E.UNK_PKA_SCALING1 / (E.UNK_DIELECTRIC2 * par.coulomb_cutoff1)
@@ -229,6 +229,8 @@ def scan(tag, mol):
                             {"group": g.label, "energy_volume": g.energy_volume, "charge": q}))
             if not (-EPS <= g.buried <= 1 + EPS):
                 out.append(("buried-range", f"{who}: buried fraction {g.buried}", {"group": g.label, "buried": g.buried}))
+            if cname == "AVR":      # the bounds are stated within a conformation; of the average only desolvation sign and buried range are checked
+                continue
             for d in g.determinants["backbone"]:
                 if q * d.value < -EPS:
                     out.append(("backbone-sign", f"{who}: backbone H-bond {d.label.strip()} {d.value:+.4f} " + ("raises an acid's" if q < 0 else "lowers a base's") + " pKa",
@@ -268,6 +270,8 @@ def scan(tag, mol):
                                 + (f" ({name} = {getattr(par, name)})" if name else ""),
                                 {"group": g.label, "partner": d.label, "value": d.value, "max": lim, "exception_parameter": name}))
         prot = [g for g in tit if g.atom.type == "atom" and not g.coupled_titrating_group]
+        if cname == "AVR":
+            continue
         for i, g1 in enumerate(prot):
             for g2 in prot[:i]:
                 if g1.charge * g2.charge >= 0:
@@ -307,8 +311,9 @@ def ser_to_cys_dyads(text):
     return "\n".join(out) + "\n", len(hit)
 
 
-def add_ions(text, rng, names, per=1):
-    """HETATM ions of the given residue names 2.5-6 A from atoms of charged side chains (no clash below 2 A)"""
+def add_ions(text, rng, names, per=1, charges=None):
+    """HETATM ions of the given residue names 2.5-6 A from atoms of charged side chains (no clash below 2 A); with `charges`
+    (name -> formal charge) the records carry the formal-charge field of the PDB format in columns 79-80 (digit then sign: '2+', '1-')"""
     lines = [l for l in text.splitlines() if l[:3] != "END"]
     atoms = [tuple(float(v) for v in structures.get_xyz(l)) for l in lines if structures.is_atom(l)]
     anchors = [tuple(float(v) for v in structures.get_xyz(l)) for l in lines if structures.is_atom(l)
@@ -330,6 +335,9 @@ def add_ions(text, rng, names, per=1):
                     resn += 1
                     el = {"1P": "X", "2P": "X", "1N": "X", "2N": "X", "IOD": "I", "FE2": "FE"}.get(nm, nm)
                     out.append(f"HETATM{serial:>5d} {nm:<4s} {nm:>3s} Z{resn:>4d}    {p[0]:8.3f}{p[1]:8.3f}{p[2]:8.3f}  1.00  0.00          {el:>2s}")
+                    if charges and charges.get(nm):
+                        q = int(charges[nm])
+                        out[-1] += f"{abs(q)}{'+' if q > 0 else '-'}"
                     break
     return "\n".join(out) + "\nEND\n"
 
@@ -408,6 +416,15 @@ def run(chk: common.Check):
         ion_names = sorted(read_parameter_file(loadOptions(["x.pdb"]).parameters, propka.parameters.Parameters()).ions.keys())
     for n in ["1HPX.pdb"] + (["3SGB-subset.pdb", "4DFR.pdb"] if chk.thorough else []):
         cases.append((f"{n} + every ion type", add_ions(structures.read(n), rng, ion_names, per=2 if chk.thorough else 1), []))
+    # the same with the formal-charge field of the PDB format filled in on every ion record (standard spelling: digit, then sign)
+    from propka.input import read_parameter_file as _rpf
+    from propka.lib import loadOptions as _lo
+    ion_q = dict(_rpf(_lo(["x.pdb"]).parameters, propka.parameters.Parameters()).ions)
+    for n in ["3SGB-subset.pdb"] + (["1HPX.pdb"] if chk.thorough else []):
+        cases.append((f"{n} + every ion type, formal-charge field written", add_ions(structures.read(n), rng, ion_names, per=2 if chk.thorough else 1, charges=ion_q), []))
+    # an ensemble: the same model twice (the average over conformations is reported too)
+    body = "\n".join(l for l in structures.read("3SGB-subset.pdb").splitlines() if structures.is_atom(l) or l[:3] == "TER")
+    cases.append(("3SGB-subset.pdb as two identical MODELs", f"MODEL        1\n{body}\nENDMDL\nMODEL        2\n{body}\nENDMDL\nEND\n", []))
     for n in ["3SGB-subset.pdb", "1HPX.pdb"] + (["1FTJ-Chain-A.pdb"] if chk.thorough else []):
         for _ in range(3 if chk.thorough else 1):
             cases.append((f"{n} acids->bases", acids_to_bases(structures.read(n), rng, 0.5), []))
